@@ -3,6 +3,7 @@ from .. import ast as A
 from .. import opcodes as O
 from .. import terms as T
 from .. import vmloops as V
+from .. import asmchecks as AC
 
 CHOICE_BASES = T.CHOICE_BASES
 
@@ -135,3 +136,8 @@ def run(ctx):
     ctx.guarded(r, r1_choice_recording)
     r = ctx.rule("R3", "the trace is returned iff the simplify flag is set", 2)
     ctx.guarded(r, r3_trace_iff_flag)
+    r = ctx.rule("R2", "native choice protocol: one OR into [rsi], one advance, flag iff decided, value = chosen operand", 2 * 26)
+    for kind in AC.TRACING:
+        ctx.guarded(r, AC.check_choice_protocol, kind)
+    r = ctx.rule("R2s", "native min/max branch on strict comparisons like the interpreter's choice functions", 14)
+    ctx.guarded(r, AC.check_strictness)
